@@ -42,8 +42,9 @@ type Fetch struct {
 	URL     string `json:"url"`
 	Host    string `json:"host"`
 	Attempt int    `json:"attempt"`
-	Status  int    `json:"status"` // 0 = transport error
-	AtMs    int64  `json:"at_ms"`  // (virtual) time of the request, ms since the network was created
+	Status  int    `json:"status"`  // 0 = transport error
+	AtMs    int64  `json:"at_ms"`   // (virtual) time of the request, ms since the network was created
+	DoneMs  int64  `json:"done_ms"` // time the answer was handed back (later than at_ms when the harness held the request)
 }
 
 // Net is the in-memory network: an http.RoundTripper over a Site with a global, totally ordered fetch log.
@@ -128,7 +129,7 @@ func (n *Net) RoundTrip(req *http.Request) (*http.Response, error) {
 		body = []byte("not found")
 		hdr.Set("Content-Type", "text/plain")
 	}
-	f := Fetch{Seq: n.seq.Add(1), URL: u, Host: req.URL.Host, Attempt: att, Status: status, AtMs: at}
+	f := Fetch{Seq: n.seq.Add(1), URL: u, Host: req.URL.Host, Attempt: att, Status: status, AtMs: at, DoneMs: time.Since(n.t0).Milliseconds()}
 	if fail && status == 0 {
 		f.Status = 0
 	}
@@ -160,7 +161,9 @@ func (n *Net) RoundTrip(req *http.Request) (*http.Response, error) {
 
 type errBody struct{}
 
-func (errBody) Read([]byte) (int, error) { return 0, errors.New("verifsim: simulated connection reset while reading the body") }
+func (errBody) Read([]byte) (int, error) {
+	return 0, errors.New("verifsim: simulated connection reset while reading the body")
+}
 
 var pngHeader = []byte{0x89, 'P', 'N', 'G', 0x0d, 0x0a, 0x1a, 0x0a, 0, 0, 0, 0x0d, 'I', 'H', 'D', 'R', 0, 0, 0, 1, 0, 0, 0, 1, 8, 6, 0, 0, 0, 0x1f, 0x15, 0xc4, 0x89}
 
